@@ -53,3 +53,23 @@ theorem read_only (d : Defects) (n : Nat) (w : World) (c : Cmd)
   · simp [runCmd, allocRun]
 
 end C17
+
+namespace C17
+open RedoModel.Deps
+
+/-- The classification agrees with the builder's own override test (repaired in /repo, ecaeab3): a
+generated, not overridden, not failed file whose current stamp differs from the recorded one *without*
+being a manual override (only mode, owner or inode differ — `chmod`, an mtime-preserving replacement)
+is still a target, not a source: `redo-ifchange` of it rebuilds it, so `redo-targets`/`redo-ood`
+must consider it. -/
+theorem stamp_change_without_override_keeps_target (w : World) (R f : Nat) (st : DStamp)
+    (hna : f ≠ alwaysId) (hg : (w.recs f).isGenerated = true) (hno : (w.recs f).isOverride = false)
+    (hf : isFailedR (w.recs f) R = false) (hs : (w.recs f).stamp = some st)
+    (hd : detectOverride st (readStamp w f) = false) :
+    isSource w R f = false ∧ isTarget w R f = true := by
+  have hr : getRec w R f = w.recs f := by simp [getRec, hna]
+  have h1 : isSource w R f = false := by
+    simp [isSource, hna, hr, hg, hno, hf, hs, hd]
+  exact ⟨h1, by simp [isTarget, hr, hg, h1]⟩
+
+end C17
